@@ -833,7 +833,7 @@ pub fn gen_cap(g: &mut Gen, d: &[u8]) -> String {
         4 => d.len().max(m) + 1,
         5 => (d.len() + 4).max(m) * 2,
         6 => m + g.rng.below(64),
-        _ => 32 * 1024,
+        _ => if g.rng.chance(1, 12) { 32 * 1024 } else { m + g.rng.below(16) },
     };
     if g.rng.chance(1, 6) { format!("r{}", n) } else { n.to_string() }
 }
